@@ -240,3 +240,296 @@ Proof.
     apply rot_prefix; assumption.
   - apply Nat.leb_gt in E. replace (s <? t)%nat with true by (symmetry; apply Nat.ltb_lt; exact E). reflexivity.
 Qed.
+
+(* ---- apex -------------------------------------------------------------------------------------------- *)
+Section Apex.
+  Local Open Scope R_scope.
+  Context (f : vec3 R -> R).
+  (* first index of the largest value, by recursion from the right *)
+  Fixpoint spec_arg (ps : list (vec3 R)) : option (nat * R) :=
+    match ps with
+    | [] => None
+    | x :: r => match spec_arg r with
+                | None => Some (0%nat, f x)
+                | Some (j, m) => if Rltb (f x) m then Some (S j, m) else Some (0%nat, f x)
+                end
+    end.
+  Ltac tri := repeat (match goal with |- (_, _) = (_, _) => apply f_equal2 end); try lia; try reflexivity.
+  Lemma argmax_fold ps : forall i best bv,
+    fold_left (argmax_step ROps) (map f ps) (i, best, bv) =
+    match spec_arg ps with
+    | None => ((i + length ps)%nat, best, bv)
+    | Some (j, m) =>
+        match bv with
+        | None => ((i + length ps)%nat, (i + j)%nat, Some m)
+        | Some b => if Rltb b m then ((i + length ps)%nat, (i + j)%nat, Some m) else ((i + length ps)%nat, best, Some b)
+        end
+    end.
+  Proof.
+    induction ps as [|x r IH]; intros i best bv; cbn [map fold_left spec_arg length].
+    - rewrite Nat.add_0_r. reflexivity.
+    - unfold argmax_step at 2. destruct bv as [b|].
+      + rops. destruct (Rltb_spec b (f x)) as [Hb|Hb]; rewrite IH; destruct (spec_arg r) as [[j m]|].
+        * destruct (Rltb_spec (f x) m) as [H1|H1].
+          { destruct (Rltb_spec b m); [|lra]. tri. }
+          { destruct (Rltb_spec b (f x)); [|lra]. tri. }
+        * destruct (Rltb_spec b (f x)); [|lra]. tri.
+        * destruct (Rltb_spec (f x) m) as [H1|H1].
+          { destruct (Rltb_spec b m); tri. }
+          { destruct (Rltb_spec b m); [lra|]. destruct (Rltb_spec b (f x)); [lra|]. tri. }
+        * destruct (Rltb_spec b (f x)); [lra|]. tri.
+      + rewrite IH. destruct (spec_arg r) as [[j m]|].
+        * rops. destruct (Rltb_spec (f x) m); tri.
+        * tri.
+  Qed.
+End Apex.
+
+Lemma spec_arg_apex ax (ps : list (vec3 R)) :
+  match spec_arg (fun x => vdot ROps x ax) ps with
+  | None => spec_apex ROps ps ax = None
+  | Some (j, m) => exists y, nth_error ps j = Some y /\ spec_apex ROps ps ax = Some (y, m)
+  end.
+Proof.
+  induction ps as [|x r IH]; cbn [spec_arg spec_apex]; [reflexivity|].
+  destruct (spec_arg _ r) as [[j m]|].
+  - destruct IH as [y [Hy Hs]]. rewrite Hs. unfold pick_max. rops.
+    destruct (Rltb (vdot ROps x ax) m).
+    + exists y. split; [exact Hy|reflexivity].
+    + exists x. split; reflexivity.
+  - rewrite IH. exists x. split; reflexivity.
+Qed.
+
+Lemma apex_refines (p : polyline R) ax : c_apex ROps p ax = s_apex ROps p ax.
+Proof.
+  unfold c_apex, s_apex, argmax. rewrite argmax_fold.
+  pose proof (spec_arg_apex ax (pv p)) as H.
+  destruct (spec_arg _ (pv p)) as [[j m]|].
+  - destruct H as [y [Hy Hs]]. rewrite Hs. cbn [Nat.add]. rewrite Hy. reflexivity.
+  - rewrite H. reflexivity.
+Qed.
+
+(* the specification's apex is a vertex of the polyline with the largest coordinate along the axis,
+   and the first such vertex *)
+Lemma spec_apex_max ax (ps : list (vec3 R)) x m : spec_apex ROps ps ax = Some (x, m) ->
+  m = vdot ROps x ax /\ In x ps /\ (forall y, In y ps -> (vdot ROps y ax <= m)%R).
+Proof.
+  revert x m. induction ps as [|z r IH]; intros x m H; cbn [spec_apex] in H; [discriminate|].
+  destruct (spec_apex ROps r ax) as [[y cy]|] eqn:E; unfold pick_max in H; cbn [nltb ROps] in H.
+  - specialize (IH y cy eq_refl). destruct IH as [Hm [Hin Hmax]].
+    destruct (Rltb_spec (vdot ROps z ax) cy); injection H as <- <-.
+    + split; [exact Hm|]. split; [right; exact Hin|]. intros w [<-|Hw]; [lra|apply Hmax; exact Hw].
+    + split; [reflexivity|]. split; [left; reflexivity|]. intros w [<-|Hw]; [unfold vdot; rops; lra|]. specialize (Hmax w Hw). unfold vdot in *; rops; lra.
+  - injection H as <- <-. split; [reflexivity|]. split; [left; reflexivity|].
+    intros w [<-|Hw]; [unfold vdot; rops; lra|]. destruct r as [|z' r']; [destruct Hw|]. cbn [spec_apex] in E. unfold pick_max in E.
+    destruct (spec_apex ROps r' ax) as [[? ?]|]; [destruct (nltb _ _ _)|]; discriminate.
+Qed.
+
+(* ---- bounding box ---------------------------------------------------------------------------------- *)
+Section BBox.
+  Local Open Scope R_scope.
+  Lemma nmin_assoc a b c : nmin ROps a (nmin ROps b c) = nmin ROps (nmin ROps a b) c.
+  Proof. unfold nmin; rops. destruct (Rleb_spec b c), (Rleb_spec a b); repeat (match goal with |- context [Rleb ?u ?v] => destruct (Rleb_spec u v); cbv iota end); lra. Qed.
+  Lemma nmax_assoc a b c : nmax ROps a (nmax ROps b c) = nmax ROps (nmax ROps a b) c.
+  Proof. unfold nmax; rops. destruct (Rleb_spec b c), (Rleb_spec a b); repeat (match goal with |- context [Rleb ?u ?v] => destruct (Rleb_spec u v); cbv iota end); lra. Qed.
+  Lemma vmin_assoc a b c : vmin ROps a (vmin ROps b c) = vmin ROps (vmin ROps a b) c.
+  Proof. unfold vmin; cbn [vx vy vz]. rewrite !nmin_assoc. reflexivity. Qed.
+  Lemma vmax_assoc a b c : vmax ROps a (vmax ROps b c) = vmax ROps (vmax ROps a b) c.
+  Proof. unfold vmax; cbn [vx vy vz]. rewrite !nmax_assoc. reflexivity. Qed.
+  Lemma spec_min_push r : forall x y, spec_min ROps (vmin ROps x y) r = vmin ROps x (spec_min ROps y r).
+  Proof. induction r as [|z r IH]; intros x y; cbn [spec_min]; [reflexivity|]. rewrite vmin_assoc. reflexivity. Qed.
+  Lemma spec_max_push r : forall x y, spec_max ROps (vmax ROps x y) r = vmax ROps x (spec_max ROps y r).
+  Proof. induction r as [|z r IH]; intros x y; cbn [spec_max]; [reflexivity|]. rewrite vmax_assoc. reflexivity. Qed.
+  Lemma fold_min r : forall x, fold_left (vmin ROps) r x = spec_min ROps x r.
+  Proof. induction r as [|y r IH]; intros x; cbn [fold_left spec_min]; [reflexivity|]. rewrite IH. apply spec_min_push. Qed.
+  Lemma fold_max r : forall x, fold_left (vmax ROps) r x = spec_max ROps x r.
+  Proof. induction r as [|y r IH]; intros x; cbn [fold_left spec_max]; [reflexivity|]. rewrite IH. apply spec_max_push. Qed.
+  Lemma bbox_refines (p : polyline R) : c_bbox ROps p = s_bbox ROps p.
+  Proof. unfold c_bbox, s_bbox. destruct (pv p) as [|x r]; [reflexivity|]. rewrite fold_min, fold_max. reflexivity. Qed.
+
+  (* the box encloses every vertex: origin <= v <= origin + size, per coordinate *)
+  Lemma nmin_le_l a b : nmin ROps a b <= a.
+  Proof. unfold nmin; rops. destruct (Rleb_spec a b); lra. Qed.
+  Lemma nmin_le_r a b : nmin ROps a b <= b.
+  Proof. unfold nmin; rops. destruct (Rleb_spec a b); lra. Qed.
+  Lemma nmax_ge_l a b : a <= nmax ROps a b.
+  Proof. unfold nmax; rops. destruct (Rleb_spec a b); lra. Qed.
+  Lemma nmax_ge_r a b : b <= nmax ROps a b.
+  Proof. unfold nmax; rops. destruct (Rleb_spec a b); lra. Qed.
+  Definition vle (a b : vec3 R) : Prop := vx a <= vx b /\ vy a <= vy b /\ vz a <= vz b.
+  Lemma spec_min_lower r : forall x y, In y (x :: r) -> vle (spec_min ROps x r) y.
+  Proof.
+    induction r as [|z r IH]; intros x y Hin; cbn [spec_min].
+    - destruct Hin as [<-|[]]. unfold vle; lra.
+    - unfold vle, vmin; cbn [vx vy vz]. destruct Hin as [<-|Hin].
+      + pose proof (nmin_le_l (vx x) (vx (spec_min ROps z r))). pose proof (nmin_le_l (vy x) (vy (spec_min ROps z r))).
+        pose proof (nmin_le_l (vz x) (vz (spec_min ROps z r))). lra.
+      + destruct (IH z y Hin) as [H1 [H2 H3]].
+        pose proof (nmin_le_r (vx x) (vx (spec_min ROps z r))). pose proof (nmin_le_r (vy x) (vy (spec_min ROps z r))).
+        pose proof (nmin_le_r (vz x) (vz (spec_min ROps z r))). lra.
+  Qed.
+  Lemma spec_max_upper r : forall x y, In y (x :: r) -> vle y (spec_max ROps x r).
+  Proof.
+    induction r as [|z r IH]; intros x y Hin; cbn [spec_max].
+    - destruct Hin as [<-|[]]. unfold vle; lra.
+    - unfold vle, vmax; cbn [vx vy vz]. destruct Hin as [<-|Hin].
+      + pose proof (nmax_ge_l (vx x) (vx (spec_max ROps z r))). pose proof (nmax_ge_l (vy x) (vy (spec_max ROps z r))).
+        pose proof (nmax_ge_l (vz x) (vz (spec_max ROps z r))). lra.
+      + destruct (IH z y Hin) as [H1 [H2 H3]].
+        pose proof (nmax_ge_r (vx x) (vx (spec_max ROps z r))). pose proof (nmax_ge_r (vy x) (vy (spec_max ROps z r))).
+        pose proof (nmax_ge_r (vz x) (vz (spec_max ROps z r))). lra.
+  Qed.
+  Lemma bbox_encloses (p : polyline R) o sz y : s_bbox ROps p = Some (o, sz) -> In y (pv p) ->
+    vle o y /\ vle y (vadd ROps o sz).
+  Proof.
+    unfold s_bbox. destruct (pv p) as [|x r]; [discriminate|]. intros H Hin. injection H as <- <-.
+    split; [apply spec_min_lower; exact Hin|].
+    pose proof (spec_max_upper r x y Hin) as [H1 [H2 H3]].
+    unfold vle, vadd, vsub; rops; cbn [vx vy vz]. lra.
+  Qed.
+End BBox.
+
+(* ---- histories ------------------------------------------------------------------------------------ *)
+(* operations whose refinement is proved for all arguments (see insert_* and aligned_* below for the other two) *)
+Definition op_supported (o : op R) : bool :=
+  match o with OpInsert _ _ _ => false | OpAligned _ _ => false | _ => true end.
+
+Lemma step_refines (pl : list (polyline R)) o : op_in_range pl o = true -> op_supported o = true ->
+  step (code_impl ROps) pl o = step (spec_impl ROps) pl o.
+Proof.
+  intros Hr Hs. destruct o; cbn [op_supported] in Hs; try discriminate;
+    unfold step, on, ob_poly, with_edges;
+    cbn [i_edges i_new i_flipped i_rolled i_sliced i_sectioned i_join i_insert i_index_of i_aligned i_apex i_bbox i_len
+         code_impl spec_impl].
+  - rewrite edges_refines. reflexivity.
+  - destruct (nth_error pl a); [|reflexivity]. rewrite edges_refines. reflexivity.
+  - destruct (nth_error pl a); [|reflexivity]. rewrite edges_refines. reflexivity.
+  - destruct (nth_error pl a); [|reflexivity]. rewrite rolled_refines.
+    destruct (s_rolled p k) as [[q m]|]; [rewrite edges_refines|]; reflexivity.
+  - cbn [op_in_range] in Hr. destruct (nth_error pl a); [|reflexivity].
+    apply andb_true_iff in Hr. destruct Hr as [H1 H2]. apply Nat.leb_le in H1, H2.
+    rewrite sliced_refines by assumption. destruct (s_sliced p start stop); [rewrite edges_refines|]; reflexivity.
+  - destruct (nth_error pl a); [|reflexivity]. rewrite sectioned_refines.
+    destruct (s_sectioned p bps); [|reflexivity]. do 2 f_equal. apply map_ext. intros q. rewrite edges_refines. reflexivity.
+  - destruct (fetch pl parts); [|reflexivity]. rewrite join_refines.
+    destruct (s_join l closed); [rewrite edges_refines|]; reflexivity.
+  - destruct (nth_error pl a); [|reflexivity]. rewrite index_of_refines. reflexivity.
+  - destruct (nth_error pl a); [|reflexivity]. rewrite apex_refines. reflexivity.
+  - destruct (nth_error pl a); [|reflexivity]. rewrite bbox_refines. reflexivity.
+  - destruct (nth_error pl a); [|reflexivity]. rewrite len_refines. reflexivity.
+Qed.
+
+(* for every finite history of supported operations with slice bounds in range, applied to results of
+   earlier operations, the code-shaped model and the list specification give the same values and errors *)
+Lemma history_refines : forall ops (pl : list (polyline R)),
+  forallb op_supported ops = true -> history_in_range (spec_impl ROps) pl ops ->
+  run (code_impl ROps) pl ops = run (spec_impl ROps) pl ops.
+Proof.
+  induction ops as [|o r IH]; intros pl Hs Hr; [reflexivity|].
+  cbn [forallb] in Hs. apply andb_true_iff in Hs. destruct Hs as [Hs1 Hs2].
+  cbn [history_in_range] in Hr. destruct Hr as [Hr1 Hr2].
+  cbn [run]. rewrite (step_refines pl o Hr1 Hs1). f_equal. apply IH; assumption.
+Qed.
+
+(* an operation that raises appends nothing to the pool: everything existing is unchanged (all operations) *)
+Lemma errors_leave_unchanged (I : impl R) (pl : list (polyline R)) o e :
+  snd (step I pl o) = ObRaise e -> fst (step I pl o) = pl.
+Proof.
+  destruct o; unfold step, on, ob_poly; try (destruct (nth_error pl a)); cbn; try discriminate; try reflexivity.
+  - destruct (i_rolled I p k) as [[q m]|]; cbn; [discriminate|reflexivity].
+  - destruct (i_sliced I p start stop); cbn; [discriminate|reflexivity].
+  - destruct (i_sectioned I p bps); cbn; [discriminate|reflexivity].
+  - destruct (fetch pl parts); [|reflexivity]. destruct (i_join I l closed); cbn; [discriminate|reflexivity].
+  - destruct (i_insert I p pts idx) as [[[q om] im]|]; cbn; [discriminate|reflexivity].
+  - destruct (i_aligned I p v); cbn; [discriminate|reflexivity].
+Qed.
+(* and no operation ever changes or removes an existing polyline: the pool only grows *)
+Lemma pool_only_grows (I : impl R) (pl : list (polyline R)) o : exists news, fst (step I pl o) = pl ++ news.
+Proof.
+  destruct o; unfold step, on, ob_poly; try (destruct (nth_error pl a)); cbn;
+    try (eexists; reflexivity); try (exists []; rewrite app_nil_r; reflexivity).
+  - destruct (i_rolled I p k) as [[q m]|]; cbn; [eexists; reflexivity|exists []; rewrite app_nil_r; reflexivity].
+  - destruct (i_sliced I p start stop); cbn; [eexists; reflexivity|exists []; rewrite app_nil_r; reflexivity].
+  - destruct (i_sectioned I p bps); cbn; [eexists; reflexivity|exists []; rewrite app_nil_r; reflexivity].
+  - destruct (fetch pl parts); [|exists []; rewrite app_nil_r; reflexivity].
+    destruct (i_join I l closed); cbn; [eexists; reflexivity|exists []; rewrite app_nil_r; reflexivity].
+  - destruct (i_insert I p pts idx) as [[[q om] im]|]; cbn; [eexists; reflexivity|exists []; rewrite app_nil_r; reflexivity].
+  - destruct (i_aligned I p v); cbn; [eexists; reflexivity|exists []; rewrite app_nil_r; reflexivity].
+Qed.
+
+(* ---- with_insertions ------------------------------------------------------------------------------- *)
+(* Refinement of the sort-based code shape (stable argsort, scatter, searchsorted) to the declarative
+   insertion is checked here exhaustively on a finite domain only: see C09_insert_refines_small_partial. *)
+Fixpoint all_lists (vals : list nat) (k : nat) : list (list nat) :=
+  match k with
+  | 0%nat => [[]]
+  | S k' => flat_map (fun l => map (fun x => x :: l) vals) (all_lists vals k')
+  end.
+Fixpoint nats_eqb (l l' : list nat) : bool :=
+  match l, l' with [], [] => true | a :: r, b :: r' => Nat.eqb a b && nats_eqb r r' | _, _ => false end.
+(* v = 0..n-1, inserted values 100.. : all three results of the code shape equal the specification *)
+Definition insert_agrees (n : nat) (idx : list nat) : bool :=
+  let v := seq 0 n in
+  let pts := seq 100 (length idx) in
+  nats_eqb (np_insert v idx pts) (spec_insert v idx pts) &&
+  nats_eqb (inserted_positions idx) (spec_ins_map idx) &&
+  nats_eqb (map (fun i => (i + searchsorted_right (map fst (sorted_pairs idx)) i)%nat) (seq 0 n)) (spec_orig_map n idx).
+Lemma insert_refines_small :
+  forallb (fun n => forallb (fun k => forallb (insert_agrees n) (all_lists (seq 0 (S n)) k)) (seq 0 5)) (seq 0 6) = true.
+Proof. vm_compute. reflexivity. Qed.
+
+(* the declarative maps really point at the vertices: original vertex i is found at i + #{j : idx_j <= i} *)
+Lemma emitted_length {A} p : forall idx (pts : list A), length idx = length pts ->
+  length (emitted p idx pts) = count_nat (fun j => j =? p)%nat idx.
+Proof.
+  unfold emitted, count_nat. intros idx pts. rewrite map_length. revert pts.
+  induction idx as [|a r IH]; intros [|x xs] H; try discriminate; [reflexivity|].
+  cbn [zip filter fst]. destruct (a =? p)%nat; cbn [length]; rewrite IH by (cbn in H; lia); reflexivity.
+Qed.
+Lemma count_split p i l :
+  count_nat (fun j => (p <=? j) && (j <=? p + S i))%nat l =
+  (count_nat (fun j => j =? p)%nat l + count_nat (fun j => (S p <=? j) && (j <=? S p + i))%nat l)%nat.
+Proof.
+  unfold count_nat. induction l as [|a r IH]; [reflexivity|]. cbn [filter].
+  destruct (Nat.leb_spec p a), (Nat.leb_spec a (p + S i)), (Nat.eqb_spec a p), (Nat.leb_spec (S p) a), (Nat.leb_spec a (S p + i));
+    cbn [andb length]; try lia.
+Qed.
+Lemma ins_from_orig {A} (idx : list nat) (pts : list A) : length idx = length pts ->
+  forall v p i x, nth_error v i = Some x ->
+  nth_error (ins_from p v idx pts) (i + count_nat (fun j => (p <=? j) && (j <=? p + i))%nat idx) = Some x.
+Proof.
+  intros Hl. induction v as [|y r IH]; intros p i x H; [destruct i; discriminate|].
+  cbn [ins_from]. destruct i as [|i].
+  - cbn in H. injection H as <-. cbn [Nat.add]. rewrite Nat.add_0_r.
+    replace (count_nat (fun j => (p <=? j) && (j <=? p))%nat idx) with (length (emitted p idx pts)).
+    + rewrite nth_error_app2 by lia. rewrite Nat.sub_diag. reflexivity.
+    + rewrite emitted_length by exact Hl. unfold count_nat. f_equal. apply filter_ext. intros a.
+      destruct (Nat.leb_spec p a), (Nat.leb_spec a p), (Nat.eqb_spec a p); cbn; try reflexivity; lia.
+  - cbn [nth_error] in H. rewrite count_split, <- (emitted_length p idx pts Hl).
+    rewrite nth_error_app2 by lia.
+    replace (S i + (length (emitted p idx pts) + count_nat (fun j => (S p <=? j) && (j <=? S p + i))%nat idx) - length (emitted p idx pts))%nat
+      with (S (i + count_nat (fun j => (S p <=? j) && (j <=? S p + i))%nat idx)) by lia.
+    cbn [nth_error]. apply IH. exact H.
+Qed.
+Lemma spec_orig_map_points {A} (v : list A) idx pts i x : length idx = length pts -> nth_error v i = Some x ->
+  nth_error (spec_orig_map (length v) idx) i = Some (i + count_nat (fun j => j <=? i)%nat idx)%nat /\
+  nth_error (spec_insert v idx pts) (i + count_nat (fun j => j <=? i)%nat idx) = Some x.
+Proof.
+  intros Hl H. assert (Hi : (i < length v)%nat) by (apply nth_error_Some; congruence). split.
+  - unfold spec_orig_map. rewrite nth_error_map, nth_error_seq' by exact Hi. reflexivity.
+  - unfold spec_insert.
+    replace (count_nat (fun j => j <=? i)%nat idx) with (count_nat (fun j => (0 <=? j) && (j <=? 0 + i))%nat idx);
+      [apply ins_from_orig; assumption|].
+    reflexivity.
+Qed.
+
+(* ---- aligned_with ----------------------------------------------------------------------------------- *)
+(* the cases without arithmetic; the sign argument (flip iff extent . vector < 0 through vg.project /
+   vg.scale_factor with its two NaN outcomes) is validated by the correspondence only *)
+Lemma aligned_refines_degenerate (p : polyline R) v :
+  pclosed p = true \/ (length (pv p) < 2)%nat -> c_aligned ROps p v = s_aligned ROps p v.
+Proof.
+  unfold c_aligned, s_aligned. intros [H|H].
+  - rewrite H. reflexivity.
+  - destruct (pclosed p); [reflexivity|]. replace (length (pv p) <? 2)%nat with true by (symmetry; apply Nat.ltb_lt; exact H).
+    destruct (pv p) as [|a [|b r]]; [reflexivity|reflexivity|cbn in H; lia].
+Qed.
